@@ -523,6 +523,10 @@ where
     fn consume_term(&mut self) -> Result<ir::Node, Error> {
         let mut result: Vec<ir::Node> = Vec::new();
         loop {
+            #[cfg(feature = "verif-hooks")]
+            if crate::verif::tick() {
+                return error("verif: step budget exhausted");
+            }
             let start_group = self.group_count;
             let mut start_offset = result.len();
             let mut quantifier_allowed = true;
